@@ -279,6 +279,25 @@ fn rnsp_oracle(c: &RnspCase) -> Verdict {
         let (a, aw) = mk(1); let (b, bw) = mk(2);
         let ca = enc.encrypt_symmetric_new(&be.encode_new(&aw)); let ca = RnspExpandSeed::expand_seed(ca, &rc);
         let pb = be.encode_new(&bw);
+        if c.op % 7 >= 4 {
+            // coefficient (polynomial) packing with short polynomials: after decryption every RNS component of the plaintext is
+            // trimmed to its own significant length, and the wrapper must still recombine coefficient i of all components
+            let la = 1 + (c.seed as usize >> 3) % n; let lb = if c.op % 7 == 6 { 1 + (c.seed as usize >> 11) % (n - la + 1) } else { 1 + (c.seed as usize >> 11) % n };
+            let zero_tail = |big: &mut Vec<BigU>, words: &mut Vec<u64>, l: usize| { for i in l..n { big[i] = BigU::zero(); for x in words[i * k..(i + 1) * k].iter_mut() { *x = 0; } } };
+            let (mut a, mut aw) = mk(3); zero_tail(&mut a, &mut aw, la);
+            let (mut b, mut bw) = mk(4); zero_tail(&mut b, &mut bw, lb);
+            let ca = RnspExpandSeed::expand_seed(enc.encrypt_symmetric_new(&be.encode_polynomial_new(&aw)), &rc);
+            let pb = be.encode_polynomial_new(&bw);
+            let (out, want): (RnspCiphertext, Vec<BigU>) = match c.op % 7 {
+                4 => (ev.add_plain_new(&ca, &pb), (0..n).map(|i| a[i].add(&b[i]).rem(&tprod)).collect()),
+                5 => (ev.sub_plain_new(&ca, &pb), (0..n).map(|i| a[i].add(&tprod).sub(&b[i]).rem(&tprod)).collect()),
+                _ => { let mut w2 = vec![BigU::zero(); n]; for i in 0..la { for j in 0..lb { w2[i + j] = w2[i + j].add(&a[i].mul(&b[j])).rem(&tprod); } } (ev.multiply_plain_new(&ca, &pb), w2) }
+            };
+            let got = be.decode_polynomial_new(&dec.decrypt_new(&out));
+            if got.len() != n * k { return Err(format!("decode_polynomial returned {} words for N={n}, {k} plain moduli", got.len())); }
+            for i in 0..n { let g = BigU::from_limbs(&got[i * k..(i + 1) * k]); if g != want[i] { return Err(format!("coefficient {i}: got {} but the computation modulo the product of the {k} plain moduli gives {} (polynomial packing, op {}, operand lengths {la} and {lb})", g.to_hex(), want[i].to_hex(), c.op % 7)); } }
+            return Ok(());
+        }
         let (out, want): (RnspCiphertext, Vec<BigU>) = match c.op % 4 {
             0 => (ev.multiply_plain_new(&ca, &pb), a.iter().zip(b.iter()).map(|(x, y)| x.mul(y).rem(&tprod)).collect()),
             1 => (ev.add_plain_new(&ca, &pb), a.iter().zip(b.iter()).map(|(x, y)| x.add(y).rem(&tprod)).collect()),
@@ -293,7 +312,7 @@ fn rnsp_oracle(c: &RnspCase) -> Verdict {
         let _ = rm::gcd(1, 1);
         Ok(())
     });
-    match res { Err(p) => fail(format!("RNS-plaintext pipeline panicked: {p}")), Ok(Err(m)) => fail(m), Ok(Ok(())) => Verdict::Pass(Info::new(true).label(format!("moduli={k}")).label(format!("op={}", c.op % 4))) }
+    match res { Err(p) => fail(format!("RNS-plaintext pipeline panicked: {p}")), Ok(Err(m)) => fail(m), Ok(Ok(())) => Verdict::Pass(Info::new(true).label(format!("moduli={k}")).label(if c.op % 7 >= 4 { format!("polynomial packing op={}", c.op % 7) } else { format!("op={}", c.op % 4) })) }
 }
 
 pub fn def() -> PropertyDef {
@@ -305,7 +324,7 @@ pub fn def() -> PropertyDef {
         subs: vec![
             Sub::prop("random_shapes", 60_000, 400_000, 0.3, app_case, oracle),
             Sub::enumerate("small_shapes_exhaustive", small_shapes, oracle),
-            Sub::prop("rns_plain_wrapper", 1_500, 20_000, 0.5, |t| (3u32..=t.pick(5, 7), any::<u8>(), any::<u8>(), any::<u64>(), any::<u64>()).prop_map(|(logn, count, op, seed, entropy)| RnspCase { logn, count, op, seed, entropy }).boxed(), rnsp_oracle),
+            Sub::prop("rns_plain_wrapper", 12_000, 100_000, 0.5, |t| (3u32..=t.pick(5, 7), any::<u8>(), any::<u8>(), any::<u64>(), any::<u64>()).prop_map(|(logn, count, op, seed, entropy)| RnspCase { logn, count, op, seed, entropy }).boxed(), rnsp_oracle),
         ],
     }
 }
